@@ -114,3 +114,9 @@ Theorem C20_trailing_white_space_is_no_datetime : forall s w, ~ In 0%N s -> In w
   eval_934 (s ++ [w]) = Ok unfulfilled_v /\ eval_935 (s ++ [w]) = Ok unfulfilled_v.
 Proof. exact (fun s w H0 Hw => conj (trailing_white_space_is_no_datetime s w H0 Hw) (trailing_white_space_unfulfilled s w H0 Hw)). Qed.
 Print Assumptions C20_trailing_white_space_is_no_datetime.
+
+(* in general: an aware datetime ends in a digit or in Z -- whatever else stands last (any white space, a letter, a sign, punctuation), the string is no datetime *)
+Theorem C20_last_character_is_a_digit_or_Z : forall s w, ~ In 0%N s ->
+  is_ascii_digit w = false -> w <> 90%N -> w <> 0%N -> is_surrogate (Ch w) = false -> parse_as_datetime (s ++ [w]) = PErr.
+Proof. exact (fun s w H0 Hd Hz Hn Hs => last_character_is_digit_or_Z s w H0 (conj Hd (conj Hz (conj Hn Hs)))). Qed.
+Print Assumptions C20_last_character_is_a_digit_or_Z.
